@@ -4,7 +4,7 @@
 From Coq Require Import List ZArith Bool Permutation SetoidList SetoidPermutation.
 From IB Require Import Testing.Assertions Testing.AssertionsMore Testing.MockIO.
 From IB Require Import Proofs.AssertionsProofs Proofs.AssertionsMoreProofs Proofs.AssertionsSetoidProofs
-                       Proofs.MockIOProofs.
+                       Proofs.AssertionsKvAnyEqProofs Proofs.MockIOProofs.
 Import ListNotations.
 
 (* ---------- ordered ---------- *)
@@ -268,6 +268,87 @@ Proof.
                 [(1, 10); (2, 11); (1, 12)]%Z [(2, 20); (1, 21); (1, 22)]%Z = true) by (vm_compute; reflexivity).
   split; [exact H|]. split; [|vm_compute; reflexivity].
   exact (proj1 (c20_unordered_iff_equivalence (Z * Z) by_value_eqb Hr Hs Ht _ _) H).
+Qed.
+
+(* the grouped assertion under such an equivalence on the values: acceptance means the groups pair
+   off with equal keys and value lists that are equal as multisets up to the equivalence *)
+Theorem c20_grouped_sound_equivalence :
+  forall (V : Type) (veqb : V -> V -> bool),
+    (forall x, veqb x x = true) ->
+    (forall x y, veqb x y = true -> veqb y x = true) ->
+    (forall x y z, veqb x y = true -> veqb y z = true -> veqb x z = true) ->
+    forall actual expected : list (Z * list V),
+      assert_grouped_kv_equal veqb actual expected = true ->
+      exists expected',
+        Permutation expected expected' /\
+        Forall2 (fun x y => fst x = fst y /\ PermutationA (fun v w => veqb v w = true) (snd x) (snd y))
+                actual expected'.
+Proof. exact grouped_sound_equiv. Qed.
+
+Example c20_grouped_sound_equivalence_ex :
+  assert_grouped_kv_equal by_value_eqb [(2, [(3, 0)]); (1, [(1, 1); (2, 2); (1, 3)])]%Z
+                                       [(1, [(1, 7); (1, 8); (2, 9)]); (2, [(3, 6)])]%Z = true /\
+  assert_grouped_kv_equal by_value_eqb [(2, [(3, 0)]); (1, [(1, 1); (2, 2); (1, 3)])]%Z
+                                       [(1, [(1, 7); (2, 8); (2, 9)]); (2, [(3, 6)])]%Z = false /\
+  exists expected',
+    Permutation [(1, [(1, 7); (1, 8); (2, 9)]); (2, [(3, 6)])]%Z expected' /\
+    Forall2 (fun x y : Z * list (Z * Z) =>
+               fst x = fst y /\ PermutationA (fun v w => by_value_eqb v w = true) (snd x) (snd y))
+            [(2, [(3, 0)]); (1, [(1, 1); (2, 2); (1, 3)])]%Z expected'.
+Proof.
+  assert (Hr : forall x, by_value_eqb x x = true) by (intros x; apply Z.eqb_refl).
+  assert (Hs : forall x y, by_value_eqb x y = true -> by_value_eqb y x = true).
+  { intros x y H. unfold by_value_eqb in *. rewrite Z.eqb_sym. exact H. }
+  assert (Ht : forall x y z, by_value_eqb x y = true -> by_value_eqb y z = true -> by_value_eqb x z = true).
+  { intros x y z H1 H2. unfold by_value_eqb in *. apply Z.eqb_eq in H1. apply Z.eqb_eq in H2.
+    apply Z.eqb_eq. congruence. }
+  assert (H : assert_grouped_kv_equal by_value_eqb [(2, [(3, 0)]); (1, [(1, 1); (2, 2); (1, 3)])]%Z
+                [(1, [(1, 7); (1, 8); (2, 9)]); (2, [(3, 6)])]%Z = true) by (vm_compute; reflexivity).
+  split; [exact H|]. split; [vm_compute; reflexivity|].
+  exact (c20_grouped_sound_equivalence (Z * Z) by_value_eqb Hr Hs Ht _ _ H).
+Qed.
+
+(* V: PartialEq only (what the signature of assert_kv_collections_equal asks for), no law assumed
+   for ==: acceptance still means that the rows pair off one-to-one with equal keys and
+   `expected value == actual value` *)
+Theorem c20_kv_sound_any_eq :
+  forall (V : Type) (veqb : V -> V -> bool) (actual expected : list (Z * V)),
+    assert_kv_collections_equal veqb actual expected = true ->
+    exists actual' expected',
+      Permutation actual actual' /\ Permutation expected expected' /\
+      Forall2 (fun x y => fst x = fst y /\ veqb (snd y) (snd x) = true) actual' expected'.
+Proof. exact kv_sound_any_eq. Qed.
+
+Example c20_kv_sound_any_eq_ex :
+  assert_kv_collections_equal nan_like_eqb [(1, 10); (1, 20); (0, 5)]%Z [(0, 5); (1, 20); (1, 10)]%Z = true /\
+  exists actual' expected',
+    Permutation [(1, 10); (1, 20); (0, 5)]%Z actual' /\ Permutation [(0, 5); (1, 20); (1, 10)]%Z expected' /\
+    Forall2 (fun x y : Z * Z => fst x = fst y /\ nan_like_eqb (snd y) (snd x) = true) actual' expected'.
+Proof.
+  assert (H : assert_kv_collections_equal nan_like_eqb
+                [(1, 10); (1, 20); (0, 5)]%Z [(0, 5); (1, 20); (1, 10)]%Z = true) by (vm_compute; reflexivity).
+  split; [exact H|]. exact (c20_kv_sound_any_eq Z nan_like_eqb _ _ H).
+Qed.
+
+(* ... so a row whose value is == to nothing (a NaN) is never accepted, not even against itself *)
+Theorem c20_kv_rejects_unmatchable :
+  forall (V : Type) (veqb : V -> V -> bool) (actual expected : list (Z * V)) (k : Z) (v : V),
+    In (k, v) actual -> (forall w, veqb w v = false) ->
+    assert_kv_collections_equal veqb actual expected = false.
+Proof. exact kv_rejects_unmatchable. Qed.
+
+(* an equality under which nothing equals a negative number (either side) *)
+Definition nan_eqb (x y : Z) : bool := (0 <=? x)%Z && (0 <=? y)%Z && (x =? y)%Z.
+
+Example c20_kv_rejects_unmatchable_ex :
+  In (1, -20)%Z [(1, 10); (1, -20)]%Z /\ (forall w, nan_eqb w (-20) = false) /\
+  assert_kv_collections_equal nan_eqb [(1, 10); (1, -20)]%Z [(1, 10); (1, -20)]%Z = false.
+Proof.
+  assert (Hi : In (1, -20)%Z [(1, 10); (1, -20)]%Z) by (right; left; reflexivity).
+  assert (Hn : forall w, nan_eqb w (-20) = false).
+  { intros w. unfold nan_eqb. destruct (0 <=? w)%Z; reflexivity. }
+  split; [exact Hi|]. split; [exact Hn|].
+  exact (c20_kv_rejects_unmatchable Z nan_eqb _ _ 1%Z (-20)%Z Hi Hn).
 Qed.
 
 (* the count comparison done once per distinct element (what the correspondence check runs on
